@@ -135,3 +135,29 @@ def reset_all():
     from apischema.cache import reset
 
     reset()
+
+
+def undefined_variants(t, v, limit=2):
+    """copies of the dataclass instance v (of the ObjectT t) where a field typed Union[X, UndefinedType] holds Undefined:
+    values of the type that deserialization never produces for a field without default"""
+    import copy
+    import dataclasses
+    from apischema import Undefined
+    from vf.spec import ObjectT
+
+    out = []
+    if not (isinstance(t, ObjectT) and t.kind == "dataclass" and dataclasses.is_dataclass(v)):
+        return out
+    for f in t.fields:
+        if f.undefined and not f.init_false and not f.initvar and len(out) < limit:
+            try:
+                c = copy.copy(v)
+                object.__setattr__(c, f.name, Undefined)
+                from apischema.fields import FIELDS_SET_ATTR
+                fs = getattr(v, "__dict__", {}).get(FIELDS_SET_ATTR)
+                if fs is not None:
+                    c.__dict__[FIELDS_SET_ATTR] = set(fs) | {f.name}
+            except Exception:
+                continue
+            out.append(c)
+    return out
